@@ -613,6 +613,20 @@ func (c *Client) delete(id transactionID) {
 	c.mux.Unlock()
 }
 
+// release removes t from the transaction table if it is still registered
+// under id and reports whether it was. False means that another goroutine has
+// taken the transaction in the meantime and is the one that completes it.
+func (c *Client) release(t *clientTransaction, id transactionID) bool {
+	c.mux.Lock()
+	defer c.mux.Unlock()
+	if cur, ok := c.t[id]; !ok || cur != t {
+		return false
+	}
+	delete(c.t, id)
+
+	return true
+}
+
 type buffer struct {
 	buf []byte
 }
@@ -689,7 +703,9 @@ func (c *Client) handleAgentCallback(event Event) { //nolint:cyclop
 	}
 	// Starting agent transaction.
 	if startErr := c.a.Start(id, timeOut); startErr != nil {
-		c.delete(id)
+		if !c.release(transaction, id) {
+			return
+		}
 		event.Error = startErr
 		transaction.handle(event)
 		putClientTransaction(transaction)
@@ -699,7 +715,9 @@ func (c *Client) handleAgentCallback(event Event) { //nolint:cyclop
 	// Writing message to connection again.
 	_, writeErr := c.c.Write(buff.buf)
 	if writeErr != nil {
-		c.delete(id)
+		if !c.release(transaction, id) {
+			return
+		}
 		event.Error = writeErr
 		// Stopping agent transaction instead of waiting until it's deadline.
 		// This will call handleAgentCallback with "ErrTransactionStopped" error
